@@ -545,6 +545,8 @@ func (r *runner) step(s Step) (ev map[string]interface{}) {
 		if err != nil {
 			ev["ok"], ev["err"] = false, err.Error()
 		}
+	case "reload":
+		setRes(reftable.VerifReload(st))
 	case "uptodate":
 		ok, err := st.UpToDate()
 		ev["tag"], ev["res"], ev["next"] = s.Tag, ok && err == nil, st.NextUpdateIndex()
